@@ -246,12 +246,24 @@ def reproducibility(rep, rng, specs, quick, dd):
                         ea = do_call(a, call)
                         np.random.seed(pert[i + 1][0] + 17); np.random.random(pert[i + 1][1] + 2)
                         g0, s0 = global_state(), gen_state(b)
+                        pre = outputs(b)
                         eb = do_call(b, call)
                         g1, s1 = global_state(), gen_state(b)
                         oa, ob = outputs(a), outputs(b)
                         if ea != eb:
                             dd.violation("repro-exc", f"same seed, same calls: call {i} {call[0]} raised {ea} in one instance and {eb} in the other",
                                          {**info, "at": i})
+                            break
+                        # only `new` draws the data; add_noise / sparsify derive NEW objects and leave `data` (for KL: coefficients
+                        # times basis functions) as drawn; sparsify also leaves the noisy data alone
+                        keep = [] if call[0] == "new" else (["data", "noisy_data"] if call[0] == "sparsify" else ["data"])
+                        over = [k for k in keep if not same_any(pre[k], ob[k])]
+                        if over:
+                            dd.violation(f"overwrite-{call[0]}",
+                                         f"{call[0]} changed the simulator's {over} (the drawn data no longer equal what `new` produced"
+                                         + (", e.g. NaN written into them)" if any(
+                                             np.isnan(c[2]).any() for k in over for c in (ob[k] or []) if c[0] == "dense") else ")"),
+                                         {**info, "at": i, "changed": over})
                             break
                         bad = [k for k in oa if not same_any(oa[k], ob[k])]
                         if bad:
